@@ -19,13 +19,22 @@ Definition show_token (t : token) : string :=
 
 Definition show_tokens (l : list token) : string := String.concat "," (map show_token l).
 
-(** inl tree: flattened bytes and their tokens;  inr doc: tokens of a raw document
-    (cross-validation of the reference tokenizer, of the
-    transcribed WHATWG comment states run on the document as a comment body, and of the guard) *)
-Definition run_show (c : node + list N) : string :=
+(** RTree: flattened bytes and their tokens;  RRaw: tokens of a raw document (cross-validation of the
+    reference tokenizer, of the transcribed WHATWG comment states run on the document as a comment body,
+    and of the guard);  RSrc: a source tree with str leaves given as code points (lone surrogates) *)
+Inductive rcase := RTree (t : node) | RRaw (d : list N) | RSrc (t : snode).
+
+Definition show_tree (t : node) : string :=
+  show_hex (flatten false t) ++ " " ++ show_tokens (tokenize (flatten false t)).
+
+Definition run_show (c : rcase) : string :=
   match c with
-  | inl t => show_hex (flatten false t) ++ " " ++ show_tokens (tokenize (flatten false t))
-  | inr d => "- " ++ show_tokens (tokenize d) ++ " h"
+  | RTree t => show_tree t
+  | RRaw d => "- " ++ show_tokens (tokenize d) ++ " h"
              ++ show_hex (fst (html_comment CStart [] d)) ++ ":" ++ show_nat (List.length (snd (html_comment CStart [] d)))
              ++ ":" ++ show_bool (html5_guard d)
+  | RSrc t => match encode_tree t with
+              | Some t' => show_tree t'
+              | None => "EXC:FlattenerError:UnicodeEncodeError"
+              end
   end.
